@@ -141,8 +141,8 @@ theorem touch_wf {s : Store} (h : WF s) {nms : List Int} (hsub : ∀ nm ∈ nms,
   refine ⟨?_, fun nm hnm => h3 nm (Or.inr hnm), fun k hk => h3 k (Or.inl hk)⟩
   rw [wf_iff]; exact ⟨h.g, h.m, h2⟩
 
-theorem touch_inv {s : Store} (h : Inv s) {nms : List Int} (hsub : ∀ nm ∈ nms, nm ∈ s.nodes) :
-    Inv (s.touch nms) := by
+theorem touch_inv {s : Store} (h : Inv0 s) {nms : List Int} (hsub : ∀ nm ∈ nms, nm ∈ s.nodes) :
+    Inv0 (s.touch nms) := by
   rw [touch_of_full fun nm hnm => by
     obtain ⟨n, hn, rfl⟩ := mem_names.1 (hsub nm hnm); exact h.2 n hn]
   exact h
